@@ -140,7 +140,24 @@ fn seq<'a, T: Abs + 'a>(it: impl Iterator<Item = &'a T>) -> Value { json!({"k":"
 fn sorted(mut xs: Vec<Value>) -> Value { xs.sort_by_key(|v| v.to_string()); json!({"k":"seq","xs":xs}) }
 fn gen_len(rng: &mut StdRng, d: u32) -> usize { if d > 2 { rng.gen_range(0..2) } else { match rng.gen_range(0..8) { 0 => 0, 1 => 23, 2 => 24, 3 => 25, _ => rng.gen_range(0..5) } } }
 impl<T: Abs> Abs for Vec<T> { fn to_abs(&self) -> Value { seq(self.iter()) } fn gen(rng: &mut StdRng, d: u32) -> Self { (0..gen_len(rng, d)).map(|_| T::gen(rng, d + 1)).collect() } }
-impl<T: Abs> Abs for VecDeque<T> { fn to_abs(&self) -> Value { seq(self.iter()) } fn gen(rng: &mut StdRng, d: u32) -> Self { (0..gen_len(rng, d)).map(|_| T::gen(rng, d + 1)).collect() } }
+impl<T: Abs> Abs for VecDeque<T> {
+    fn to_abs(&self) -> Value { seq(self.iter()) }
+    fn gen(rng: &mut StdRng, d: u32) -> Self {
+        let items: Vec<T> = (0..gen_len(rng, d)).map(|_| T::gen(rng, d + 1)).collect();
+        match rng.gen_range(0..3) {
+            0 => items.into_iter().collect(),
+            // the ring buffer physically wrapped: the tail pushed at the back, the head pushed at the front
+            1 => { let k = if items.is_empty() { 0 } else { rng.gen_range(0..=items.len()) }; let mut dq = VecDeque::with_capacity(items.len());
+                   let mut head: Vec<T> = Vec::new(); for (i, x) in items.into_iter().enumerate() { if i < k { head.push(x) } else { dq.push_back(x) } }
+                   for x in head.into_iter().rev() { dq.push_front(x) } dq }
+            // queue use: filled, then rotated by pop_front / push_back
+            _ => { let mut dq: VecDeque<T> = VecDeque::with_capacity(items.len() + 1); let n = items.len(); for x in items { dq.push_back(x) }
+                   for _ in 0..(if n == 0 { 0 } else { rng.gen_range(0..2 * n) }) { if let Some(x) = dq.pop_front() { dq.push_back(x) } }
+                   // undo the logical rotation so that any order is as likely as before: not needed, any value is a value
+                   dq }
+        }
+    }
+}
 impl<T: Abs> Abs for LinkedList<T> { fn to_abs(&self) -> Value { seq(self.iter()) } fn gen(rng: &mut StdRng, d: u32) -> Self { (0..gen_len(rng, d)).map(|_| T::gen(rng, d + 1)).collect() } }
 impl<T: Abs + Ord> Abs for BTreeSet<T> { fn to_abs(&self) -> Value { seq(self.iter()) } fn gen(rng: &mut StdRng, d: u32) -> Self { (0..gen_len(rng, d)).map(|_| T::gen(rng, d + 1)).collect() } }
 impl<T: Abs + Ord> Abs for BinaryHeap<T> { fn to_abs(&self) -> Value { sorted(self.iter().map(|x| x.to_abs()).collect()) } fn gen(rng: &mut StdRng, d: u32) -> Self { (0..gen_len(rng, d)).map(|_| T::gen(rng, d + 1)).collect() } }
